@@ -183,7 +183,11 @@ def rand_type(rng, depth, ids=3):
             return ["s%d" % rng.randrange(ids)]
         return ["u%d" % rng.randrange(ids)]
     if r < 0.6:
-        return ["p%d" % rng.choice([0, 0, 0, 1, 4, 5, 2])] + rand_type(rng, depth - 1)
+        b = rand_type(rng, depth - 1)
+        q = rng.choice([0, 0, 0, 1, 4, 5, 2])
+        if q & 2 and not b[0].startswith("p"):      # restrict only qualifies pointer types
+            q = 0
+        return ["p%d" % q] + b
     if r < 0.8:
         b = rand_type(rng, depth - 1)
         while b[0] == "void" or b[0].startswith("f") or (b[0].startswith("a") and b[1] == "-"):
@@ -526,7 +530,7 @@ def gen_probes(ck, quick):
     for s, txt in (("", "1.5"), ("f", "1.5f"), ("F", "1e3F"), ("l", "1.5l"), ("L", "0x1p3L"), ("", "0x1.8p1"), ("", "1e10"), ("f", ".5f")):
         add(Probe(txt, "flt %s" % (s or "-"), ("flt", s.lower())))
     for p, txt in (("none", "'a'"), ("L", "L'a'"), ("u", "u'a'"), ("U", "U'a'"), ("u8", "u8'a'"), ("none", "'\\377'"), ("L", "L'\\x80'")):
-        add(Probe(txt, "chr %s" % p, ("chr", p)))
+        add(Probe(txt, "chr %s" % p, ("chr", p), noclang=p == "u8"))   # clang-14 has no u8 character constants
     # (6) pointers: arithmetic, difference, comparison, equality, logical, conditional
     ptrs = [p for p in P if p.tag[0] == "ptr"]
     ints = [a for a in A if a.tag[0] in ("basic", "enum") and a.tag[1] not in ("float", "double", "ldouble")][:16] + \
@@ -704,6 +708,28 @@ def normalized(a):
     return True
 
 
+def add_elem_qual(q, a):
+    if a[0] != "a":
+        return a
+    if a[4][0] == "a":
+        return ("a", 0, a[2], a[3], add_elem_qual(a[1] | q, a[4]))
+    return ("a", a[1] | q, a[2], a[3], a[4])
+
+
+def normalize(a):
+    """mirror of Spec.normalize: qualifiers of an array type belong to its element type"""
+    k = a[0]
+    if k == "p":
+        b = normalize(a[2])
+        return ("p", 0, add_elem_qual(a[1], b)) if b[0] == "a" else ("p", a[1], b)
+    if k == "a":
+        e = normalize(a[4])
+        return ("a", 0, a[2], a[3], add_elem_qual(a[1], e)) if e[0] == "a" else ("a", a[1], a[2], a[3], e)
+    if k == "f":
+        return ("f", a[1], a[2], normalize(a[3]), tuple(normalize(x) for x in a[4]))
+    return a
+
+
 def classify(p):
     """finding id of a probe class that is a known/reported deviation, else None"""
     if p.model and not normalized(p.model["ty"]):
@@ -865,6 +891,8 @@ def kb_ctype_ok(toks):
     s = " ".join(toks)
     if "*" in toks or "nullptr" in toks:
         return False
+    if any(re.fullmatch(r"[paf][2367]", t) for t in toks):   # restrict is exercised in K-A only
+        return False
     try:
         a = ty_of(s)
     except Exception:
@@ -875,9 +903,9 @@ def kb_ctype_ok(toks):
         if k == "e":
             return a[1] in ENUMS and ENUMS[a[1]][1] == a[2]
         if k == "a":
-            return not top or True if ok(a[4], False) and a[4][0] not in ("void", "f") else False
+            return ok(a[4], False) and a[4][0] not in ("void", "f") and not (a[4][0] == "a" and a[4][2] == "-")
         if k == "p":
-            return ok(a[2], False)
+            return ok(a[2], False) and not (a[2][0] == "f" and a[1])   # no qualified function types
         if k == "f":
             return ok(a[3], False) and all(ok(x, False) and x[0] not in ("void", "a", "f") for x in a[4]) and a[3][0] not in ("a", "f")
         if k == "s":
@@ -915,6 +943,19 @@ def fix_enum(rng, toks):
     return out
 
 
+def has_qualified_enum(a):
+    """clang-14 answers 0 for `const E *` vs `const int *` (it compares the qualified pointee types without
+    looking through the enum): such pairs are not used to validate the Spec"""
+    k = a[0]
+    if k == "p":
+        return (a[1] and a[2][0] == "e") or has_qualified_enum(a[2])
+    if k == "a":
+        return (a[1] and a[4][0] == "e") or has_qualified_enum(a[4])
+    if k == "f":
+        return (a[1] and a[3][0] == "e") or has_qualified_enum(a[3]) or any(has_qualified_enum(x) for x in a[4])
+    return False
+
+
 def run_kb_compat(ck):
     rng = ck.rng
     cc = ck.build_cproc_qbe()
@@ -930,9 +971,15 @@ def run_kb_compat(ck):
         t2 = list(t1) if r < 0.2 else fix_enum(rng, mutate_type(rng, t1)) if r < 0.8 else fix_enum(rng, rand_type(rng, 2))
         if not (kb_ctype_ok(t1) and kb_ctype_ok(t2)):
             continue
-        a1, a2 = strip_ptrqual(ty_of(" ".join(t1))), strip_ptrqual(ty_of(" ".join(t2)))
+        a1, a2 = normalize(strip_ptrqual(ty_of(" ".join(t1)))), normalize(strip_ptrqual(ty_of(" ".join(t2))))
         # no top-level array element qualifiers: compilers differ on "top-level qualifiers are ignored"
-        if (a1[0] == "a" and a1[1]) or (a2[0] == "a" and a2[1]) or a1[0] == "void" or a2[0] == "void":
+        def topq(a):
+            while a[0] == "a":
+                if a[1]:
+                    return True
+                a = a[4]
+            return False
+        if topq(a1) or topq(a2) or a1[0] == "void" or a2[0] == "void":
             continue
         pairs.append((a1, a2))
     q = ["targ x86_64-sysv"]
@@ -957,7 +1004,8 @@ def run_kb_compat(ck):
         for i, (a1, a2) in enumerate(pairs):
             ck.count(("compat", targ, ty_show(a1), ty_show(a2)))
             if got.get(i) != int(spec[i]):
-                ck.violation({"kind": "kb-compat", "target": targ, "t1": cdecl(a1), "t2": cdecl(a2), "code": got.get(i),
+                ck.violation({"kind": "kb-compat", "target": targ, "t1": cdecl(a1), "t2": cdecl(a2), "ast1": ty_show(a1),
+                              "ast2": ty_show(a2), "code": got.get(i),
                               "spec": int(spec[i]), "model": int(model[i]),
                               "program": "\n".join(decls) + "\nint c = __builtin_types_compatible_p(%s, %s);" % (cdecl(a1), cdecl(a2)),
                               "what": "__builtin_types_compatible_p disagrees with C11 6.2.7"})
@@ -970,6 +1018,9 @@ def run_kb_compat(ck):
     # the Spec against clang
     v = list(decls)
     for i, (a1, a2) in enumerate(pairs):
+        if has_qualified_enum(a1) or has_qualified_enum(a2):
+            v.append("")
+            continue
         v.append('_Static_assert(__builtin_types_compatible_p(%s, %s) == %d, "P%d");' % (cdecl(a1), cdecl(a2), int(spec[i]), i))
     vpath = os.path.join(d, "vcompat.c")
     open(vpath, "w").write("\n".join(v) + "\n")
